@@ -10,6 +10,7 @@ package main
 //   //@ checked NAME PROPS...: site=call F argN ; by=call G argM ; in=pkg ; except=...
 
 import (
+	"strconv"
 	"go/ast"
 	"fmt"
 	"go/constant"
@@ -280,6 +281,16 @@ func siteMatches(p *Program, pat string, in ssa.Instruction) (string, bool) {
 			}
 		}
 		return "call " + short, true
+	case "returns":
+		// `returns FUNCPATTERN`: a return statement of a function (or closure) whose name matches
+		r, ok := in.(*ssa.Return)
+		if !ok || len(r.Results) == 0 {
+			return "", false
+		}
+		if fn := in.Parent(); fn != nil && pathMatches(fn.Name(), f[1]) {
+			return "return in " + fn.Name(), true
+		}
+		return "", false
 	case "builtin":
 		// `builtin NAME`: a call of the builtin (append, copy, delete, ...)
 		c, ok := in.(*ssa.Call)
@@ -699,6 +710,12 @@ func valuePath(v ssa.Value) string {
 		if x.Value == nil {
 			return "nil"
 		}
+		if x.Value.Kind() == constant.String {
+			// go/constant abbreviates long strings in String(); keep up to 400 bytes so that patterns can look inside
+			if sv := constant.StringVal(x.Value); len(sv) > 60 && len(sv) <= 400 {
+				return strconv.Quote(sv)
+			}
+		}
 		return x.Value.String()
 	case *ssa.Phi:
 		if x.Comment != "" {
@@ -735,6 +752,10 @@ func valuePath(v ssa.Value) string {
 			}
 			return "[" + strings.Join(parts, ",") + "]"
 		}
+		// an ordinary sub-slice x[lo:hi] of a value that has a path
+		if base := valuePath(x.X); !strings.HasPrefix(base, "?") {
+			return base + "[:]"
+		}
 	case *ssa.Index:
 		return valuePath(x.X) + "[" + valuePath(x.Index) + "]"
 	case *ssa.IndexAddr:
@@ -762,7 +783,22 @@ func factMatches(f domFact, want string) bool {
 	}
 	got := valuePath(v)
 	if !pathMatches(got, path) {
-		return false
+		// the ok result of `x.(T)`: also known as "x.(T)", so that a rule can name the case of a type switch
+		typed := ""
+		if ex, ok := v.(*ssa.Extract); ok && ex.Index == 1 {
+			if ta, ok := ex.Tuple.(*ssa.TypeAssert); ok {
+				t := ta.AssertedType
+				if pt, ok := t.(*types.Pointer); ok {
+					t = pt.Elem()
+				}
+				if n, ok := t.(*types.Named); ok {
+					typed = valuePath(ta.X) + ".(" + n.Obj().Name() + ")"
+				}
+			}
+		}
+		if typed == "" || !pathMatches(typed, path) {
+			return false
+		}
 	}
 	return pol == !neg
 }
